@@ -1284,7 +1284,19 @@ def _d5(ctx):
         var, trues, falses = cand[flag_key]
         st = trues[0][2]
         iff = pm.get(id(st))
-        conj = iff.test.values if isinstance(iff.test, ast.BoolOp) and isinstance(iff.test.op, ast.And) else [iff.test]
+        # the condition is the conjunction of the tests of the (possibly nested) ifs between the loop and the store
+        conj = []
+        inner = iff
+        cur_if = iff
+        while True:
+            t_ = cur_if.test
+            conj = (list(t_.values) if isinstance(t_, ast.BoolOp) and isinstance(t_.op, ast.And) else [t_]) + conj
+            up = pm.get(id(cur_if))
+            if isinstance(up, ast.If) and any(cur_if is x for x in up.body):
+                cur_if = up
+                continue
+            break
+        iff = cur_if
         loop = pm.get(id(iff))
         okloop = isinstance(loop, ast.For) and iff in loop.body and isinstance(loop.target, ast.Name) and norm_text(loop.iter) == elems_param
         good = okloop and len(trues) == 1
@@ -1303,7 +1315,7 @@ def _d5(ctx):
                 elif isinstance(cj, ast.Name) or U.is_self_attr(cj, '_robots'):
                     srcs = [cj] if not isinstance(cj, ast.Name) else [d[0] for d in pdefs.get(cj.id, [])]
                     for d in (pdefs.get(cj.id, []) if isinstance(cj, ast.Name) else []):
-                        inside = d[2] in iff.body
+                        inside = any(d[2] is x for b_ in iff.body for x in ast.walk(b_))
                         okd = d[1] == 'assign' and ((U.is_self_attr(d[0], '_robots') and not inside)
                                                     or (isinstance(d[0], ast.Constant) and d[0].value is False and inside))
                         if not okd:
